@@ -7,7 +7,7 @@ STUB_E1 = ["global allocator (deterministic auditing arena at a fixed address)",
 
 ASSUME_E1 = [
     "sampling: a clean batch is evidence, not proof",
-    "brood is exercised through the harness component zoo (plain, zero-sized, boxed, 64-aligned, one-byte, Vec-owning, 16-aligned) and the generated call-site catalogues for a 7-component registry (and, for C01 C03 C05 C06 C11 C13 C17, a 10-component registry with two identifier bytes; for C01 C06 C11 C13 an 8-component registry with no padding bits; for C01 C03 C13 a 9-component registry)",
+    "brood is exercised through the harness component zoo (plain, zero-sized, boxed, 64-aligned, one-byte, Vec-owning, 16-aligned) and the generated call-site catalogues for a 7-component registry (and, for C01 C03 C05 C06 C11 C13 C17, a 10-component registry with two identifier bytes; for C01 C06 C11 C13 an 8-component registry with no padding bits; for C01 C03 C13 a 9-component registry; for C01 C02 C06 C11 C13 the empty registry)",
     "the reference model (BTreeMap of identifier -> component values) is trusted",
     "the dump hook (World::verif_dump, cfg brood_verif) reports the structures faithfully",
 ]
@@ -45,6 +45,11 @@ for _p, _q, _t in (("C01", 40000, 400000), ("C03", 40000, 400000), ("C05", 40000
 for _p, _q, _t in (("C01", 30000, 300000), ("C06", 30000, 300000), ("C13", 30000, 300000), ("C11", 30, 400)):
     for _tier, _n in (("quick", _q), ("thorough", _t)):
         PLAN[_p][_tier] = PLAN[_p][_tier] + [{"binary": "worldsim8", "package": "worldsim8", "profile": _p, "runs": _n, "chunks_per_job": 2 if _p != "C11" else 4}]
+
+# The empty registry (`Registry!()`): worlds of component-less entities; zero-length identifiers.
+for _p, _q, _t in (("C01", 20000, 200000), ("C02", 20000, 200000), ("C06", 20000, 200000), ("C13", 20000, 200000), ("C11", 24, 300)):
+    for _tier, _n in (("quick", _q), ("thorough", _t)):
+        PLAN[_p][_tier] = PLAN[_p][_tier] + [{"binary": "worldsim0", "package": "worldsim0", "profile": _p, "runs": _n, "chunks_per_job": 1 if _p != "C11" else 2}]
 
 # The 9-component registry: the ninth component is the first bit of a second identifier byte.
 for _p, _q, _t in (("C01", 30000, 300000), ("C03", 30000, 300000), ("C13", 30000, 300000)):
